@@ -222,6 +222,8 @@ class C18Result:
         self.word_digest = ""
         self.max_waiters = 0
         self.line_yields = 0
+        self.io_stalls = 0  # writes to the target stream during which another thread ran
+        self.cleared_in_cs = 0
         self.faults_fired = {}
         self.reads_done = 0
         self.reads_while_writer_in_cs = 0
@@ -317,6 +319,7 @@ def c18_run(base_seed, index, tier, nt, *, forced=None, cfg_override=None,
     def slow_disk():
         # a write to the target stream may take long: another thread runs meanwhile
         if cfg.get("p_io") and sched.phase2_at is None and io_rng.random() < cfg["p_io"]:
+            res.io_stalls += 1
             sched.pause()
 
     def do_snapshot(kind, fault_at=None, fault_cb=None, plan=None):
@@ -440,6 +443,7 @@ def c18_run(base_seed, index, tier, nt, *, forced=None, cfg_override=None,
                         # must never see (or act on) the transiently empty tree
                         run_step(world, {"id": 100005 + tid * 1000 + cs * 10, "k": "clear",
                                          "slot": 0}, index_every=False)
+                        res.cleared_in_cs += 1
                         sched.pause()
                     if "save_meta" in cfg["reader_ops"]:
                         # edit the metadata dicts that a save_meta snapshot aliases
